@@ -128,7 +128,8 @@ def run(ctx, spec):
                     if not reproduced_any:
                         ctx.inconc("%s failed in CBMC; replay budget exhausted" % short)
                     continue
-                test_code, err = kani_run.concrete_playback(ov, spec.package, meta, h, spec.kani_args)
+                test_code, err = kani_run.concrete_playback(ov, spec.package, meta, h, spec.kani_args, timeout=max(600, 4 * h.timeout),
+                                                            unwindset_entries=r.get("unwindset_entries", ()))
                 if not test_code:
                     ctx.inconc("%s failed in CBMC but Kani produced no concrete values: %s" % (short, (err or "")[-300:]))
                     continue
